@@ -34,7 +34,9 @@ package xrand
 //@   ensures forall k int {row(a)[k]} :: k < off(a) || k >= off(a) + len(a) ==> row(a)[k] == old(row(a)[k])
 
 // TRUSTED (bounded stand-in per DESIGN.md 4.13): positions handed out are strictly increasing, the
-// first k calls are (i, i), the replace slot is inside the reservoir.
+// first k calls are (i, i), the replace slot is inside the reservoir; `first` is cleared by the first call
+// past the reservoir-filling phase, and from then on every position is strictly greater than the one before
+// (skip >= 0 is floating-point reasoning: the quotient of two non-positive logarithms).
 //@ func sampler.Next
 //@   trusted
 //@   props C19
@@ -44,6 +46,9 @@ package xrand
 //@   ensures old(s.i) < s.k ==> result0 == old(s.i) && result1 == old(s.i) && s.i == old(s.i) + 1
 //@   ensures old(s.i) >= s.k ==> result0 > old(s.i) - 1 && 0 <= result1 && (result1 < s.k || (s.k == 0 && result1 == 0)) && (result0 < 9223372036854775807 ==> s.i == result0)
 //@   ensures result0 >= 0 && (s.k == 0 ==> result0 == 9223372036854775807)
+//@   ensures old(s.i) < s.k ==> s.first == old(s.first)
+//@   ensures old(s.i) >= s.k ==> !s.first
+//@   ensures old(s.i) >= s.k && !old(s.first) ==> result0 > old(s.i)
 
 //@ ext math.Exp(x) (y)
 //@   ispure
@@ -74,11 +79,24 @@ package xrand
 //@   loop 0: invariant len(out) == k && fresh(out) && samp.k == k && samp.i >= 0
 //@   ensures len(result) == min(k, len(a)) && (forall t int {a[t]} :: 0 <= t && t < len(a) ==> a[t] == old(a[t]))
 
+// rSample: min(k, n) pairwise distinct positions of [0, n). F = number of reservoir slots filled so far;
+// every value placed so far is below B = (samp.first ? samp.i : samp.i + 1), every new position is >= B.
 //@ func rSample
 //@   props C19
 //@   requires k >= 0 && 0 <= n && n < 9223372036854775807
-//@   loop 0: invariant len(out) == k && fresh(out) && samp.k == k && samp.i >= 0
+//@   ghostinit F := 0
+//@   ghostinit p := lambda j int :: j
+//@   ghostinit q := lambda j int :: j
+//@   after store out[0]: ghost F := (replace + 1 > F ? replace + 1 : F)
+//@   after call rShuffle[0]: ghost p := callghost_p
+//@   after call rShuffle[0]: ghost q := callghost_q
+//@   loop 0: invariant len(out) == k && fresh(out) && off(out) == 0 && samp.k == k && samp.i >= 0
+//@   loop 0: invariant 0 <= F && F <= k && (samp.first ==> F == samp.i && samp.i <= k) && (!samp.first ==> F == k && samp.i >= k - 1)
+//@   loop 0: invariant forall j int {out[j]} :: 0 <= j && j < F ==> 0 <= out[j] && out[j] < n && out[j] < (samp.first ? samp.i : samp.i + 1)
+//@   loop 0: invariant forall j1 int, j2 int {out[j1], out[j2]} :: 0 <= j1 && j1 < j2 && j2 < F ==> out[j1] != out[j2]
 //@   ensures len(result) == min(k, n)
+//@   ensures forall j int {result[j]} :: 0 <= j && j < len(result) ==> 0 <= result[j] && result[j] < n
+//@   ensures forall j1 int, j2 int {result[j1], result[j2]} :: 0 <= j1 && j1 < j2 && j2 < len(result) ==> result[j1] != result[j2]
 
 //@ func rSampleIterator
 //@   props C19
